@@ -225,6 +225,9 @@ func observe(s sdktrace.ReadOnlySpan) *snapObs {
 	})
 	ob.Parts = attrs
 	for _, e := range s.Events() {
+		if e.Time.IsZero() {
+			ob.Bad += "event without a time:" + e.Name + ";"
+		}
 		if m, ok := parseID(e.Name, "e"); ok {
 			ob.Parts = append(ob.Parts, [2]int{m, 0})
 			continue
@@ -289,6 +292,17 @@ func parsePanicMsg(s string) (int, bool) {
 
 var endBase = time.Unix(1_900_000_000, 0)
 
+// zeroInstant: January 1, year 1, 00:00:00 UTC in three spellings, none of them the zero VALUE time.Time{}.
+func zeroInstant(k int) time.Time {
+	switch k % 3 {
+	case 0:
+		return time.Time{}.In(time.FixedZone("x", 3600))
+	case 1:
+		return time.Unix(-62135596800, 0)
+	}
+	return time.Time{}.UTC().Local()
+}
+
 var linkSC = trace.NewSpanContext(trace.SpanContextConfig{TraceID: trace.TraceID{1}, SpanID: trace.SpanID{2}})
 
 // doOp issues one call on the span and returns IsRecording's answer (false otherwise).
@@ -303,6 +317,10 @@ func doOpCI(tr trace.Tracer, sp trace.Span, id int, o op, ci *childInfo) bool {
 			sp.End(trace.WithTimestamp(endBase.Add(time.Duration(id+1) * time.Microsecond)))
 		case 2:
 			sp.End(trace.WithStackTrace(true))
+		case 3: // the zero INSTANT spelled as a value other than time.Time{}: IsZero() holds, == time.Time{} does not
+			sp.End(trace.WithTimestamp(zeroInstant(id)))
+		case 4: // an end time before the start time: taken as given
+			sp.End(trace.WithTimestamp(time.Unix(1, int64(id))))
 		default:
 			sp.End()
 		}
@@ -318,6 +336,8 @@ func doOpCI(tr trace.Tracer, sp trace.Span, id int, o op, ci *childInfo) bool {
 	case opEvent:
 		if o.V == 1 {
 			sp.AddEvent("e"+strconv.Itoa(id), trace.WithTimestamp(endBase), trace.WithStackTrace(true))
+		} else if o.V == 2 { // zero-instant timestamp = not given: the event carries the call time
+			sp.AddEvent("e"+strconv.Itoa(id), trace.WithTimestamp(zeroInstant(id)))
 		} else {
 			sp.AddEvent("e"+strconv.Itoa(id), trace.WithAttributes(attribute.Int("id", id)))
 		}
@@ -477,8 +497,10 @@ func newEnvLim(P int, lims [3]int) *env {
 func (e *env) startSpan() (trace.Span, *spanTrack) {
 	st := &spanTrack{}
 	var sp trace.Span
-	if spanCount.Add(1)%3 == 0 {
+	if n := spanCount.Add(1); n%3 == 0 {
 		_, sp = e.tr.Start(nil, "root") //nolint:staticcheck // a nil context is tolerated by Start
+	} else if n%3 == 1 { // zero-instant start time = not given (observe requires a non-zero StartTime)
+		_, sp = e.tr.Start(context.Background(), "root", trace.WithNewRoot(), trace.WithTimestamp(zeroInstant(int(n))))
 	} else {
 		_, sp = e.tr.Start(context.Background(), "root", trace.WithNewRoot())
 	}
@@ -727,7 +749,7 @@ func genOp(r *vgen.Rand, endWeight int) op {
 	case x < 4:
 		return op{Kind: opAttr, N: r.Range(1, 4), V: r.Intn(3) / 2}
 	case x < 6:
-		return op{Kind: opEvent, V: r.Intn(3) / 2}
+		return op{Kind: opEvent, V: vgen.Pick(r, []int{0, 0, 1, 2})}
 	case x < 8:
 		return op{Kind: opRecErr, V: r.Intn(3) / 2}
 	case x < 10:
@@ -746,7 +768,7 @@ func genOp(r *vgen.Rand, endWeight int) op {
 	case x < 20:
 		return op{Kind: opIsRec}
 	}
-	return op{Kind: opEnd, V: vgen.Pick(r, []int{0, 0, 1, 2})}
+	return op{Kind: opEnd, V: vgen.Pick(r, []int{0, 0, 1, 2, 3, 3, 4})}
 }
 
 // limSafe: with an attribute limit the dropped count also counts repeated keys, which the model's
@@ -1070,7 +1092,7 @@ func stormLoop(w *vgen.Writer, r *vgen.Rand, tracing bool, trials int, kind stri
 			for g := range ops {
 				ops[g] = make([]op, n)
 				for i := range ops[g] {
-					o := op{Kind: opEnd, V: vgen.Pick(r, []int{0, 0, 0, 1, 2})}
+					o := op{Kind: opEnd, V: vgen.Pick(r, []int{0, 0, 0, 1, 2, 3, 3, 4})}
 					if mixed && g >= 2 && r.Bool() {
 						o = limSafe(genOp(r, 0), lims)
 					}
